@@ -5,6 +5,8 @@ Oracle ops for the `ptr` family (C16): jsontext.Pointer methods and appendStackP
   ptr sp w t1 t2 …    model of appendStackPointer(nil, w) after the token history   (w ∈ -1 0 1)
   ptr spm w t1 t2 …   the same on the packed state machine (Model/State.lean) + names stack
   ptr sidx t1 t2 …    StackDepth and StackIndex(0..depth) read off the packed machine: `d k0:n0 … kd:nd`
+  ptr errptr w mm t1 … | r1 …   JSONPointer of wrapSyntacticError (errors.go) after the history, with the
+                        pointerSuffixError built from the refs (n<hex> name, i<num> index), mm = mismatched-delimiter branch
   ptr spec w t1 t2 …  render (pointerOf w history)                                   (the declarative side)
       tokens: `{` `}` `[` `]` `l` (literal/number) `s<hex>` (string; `s-` = empty)
 Answers: hex byte strings (`-` = empty), `0`/`1`, token lists as `n tok1 … tokn`, `E` = rejected history / panic.
@@ -84,6 +86,25 @@ def handle (op : String) (args : List String) : String :=
         " ".intercalate (toString d :: cells)
       | .error _ => "E"
     | none => badArgs
+  | "errptr", w :: mm :: rest =>
+    -- ptr errptr <w> <mismatch 0|1> <hist…> | <suffix refs outermost first: n<hex> i<num>…>
+    let hist := rest.takeWhile (· != "|")
+    let refs := (rest.dropWhile (· != "|")).drop 1
+    let parseRef (t : String) : Option Spec.Pointer.Ref :=
+      if t.startsWith "n" then (bytesOfHex (t.drop 1).toString).map .name
+      else if t.startsWith "i" then (t.drop 1).toString.toNat?.map .index
+      else none
+    match parseWhere w, parseHist hist, refs.mapM parseRef with
+    | some w, some hist, some refs => match MState.run 10000 {} hist with
+      | .ok s =>
+        let rev := refs.reverse.foldl (fun rev r => match r with
+          | .name n => wrapWithObjectName rev n
+          | .index i => wrapWithArrayIndex rev i) []
+        match wrapSyntacticErrorPtr s.view w (some rev) (mm == "1") with
+        | some b => hexOfBytes b
+        | none => "E"
+      | .error _ => "E"
+    | _, _, _ => badArgs
   | "spec", w :: hist => match parseWhere w, parseHist hist with
     | some w, some hist => match Spec.Pointer.pointerOf w hist with
       | some p => hexOfBytes (Spec.Pointer.renderPath p)
